@@ -192,6 +192,20 @@ def run(chk):
 
 
 def _flags_sql_order(chk, repo):
+    # compile_order of every SQL back end (overrides included) interpreted for all flag combinations (sqlsim); the partial
+    # evaluation of SqlImpl.compile_order is the fallback
+    from ..interp import SymbolicBranch as _SB3
+    from ..sqlsim import compile_order_scenarios
+    from .c17 import m_types_env as _mte3
+
+    try:
+        res3 = compile_order_scenarios(repo, _mte3(model_of(chk)))
+        for mod_, cname, desc_, ok_, detail in res3:
+            chk.ob("R3", mod_, mod_.func(f"{cname}.compile_order") if f"{cname}.compile_order" in mod_.defs else repo.mod("backend.sql").func("SqlImpl.compile_order"), desc_, ok_, detail)
+        chk.floor("R3", "compile_order valuations (all SQL back ends)", len(res3), 12)
+        return
+    except (AnalysisError, _SB3, KeyError) as e:
+        chk.undecided.append(f"R3: compile_order could not be interpreted ({str(e)[:140]})")
     sql = repo.mod("backend.sql")
     f = sql.func("SqlImpl.compile_order")
     oparam = f.args.args[1].arg
@@ -468,6 +482,33 @@ def _dedup_interpreted(chk, repo):
 
 
 def _grouping_injection(chk, repo):
+    # decided on the interpreted preprocess_arg (pipesim: a grouped table x function types x explicit partition x context); the
+    # shape of the injecting `if` is the fallback
+    from .. import pipesim as _ps
+    from ..interp import PyRaise as _PR4, SymbolicBranch as _SB4
+    from .c17 import m_types_env as _mte4
+
+    vb0 = repo.mod("pipe.verbs")
+    try:
+        res4 = _ps.grouping_injection_scenarios(_ps.RealWorld(repo, _mte4(model_of(chk))))
+        for desc, ok_, detail in res4:
+            chk.ob("R4", vb0, vb0.func("preprocess_arg"), f"preprocess_arg interpreted: {desc}", ok_, detail)
+        chk.floor("R4", "grouping injection scenarios", len(res4), 16)
+        decided = True
+    except (AnalysisError, _SB4, KeyError) as e:
+        chk.undecided.append(f"R4: preprocess_arg could not be interpreted ({str(e)[:140]})")
+        decided = False
+    except _PR4 as p_:
+        chk.ob("R4", vb0, vb0.func("preprocess_arg"), "preprocess_arg on a grouped stub table", False, f"setting up the scenario raises {p_.name}: {p_.msg}")
+        decided = True
+    if not decided:
+        _grouping_injection_shape(chk, repo)
+    vb = vb0
+    pa = vb.func("preprocess_arg")
+    _grouping_call_sites(chk, vb, pa)
+
+
+def _grouping_injection_shape(chk, repo):
     opmod = repo.mod("ops.op")
     ft = opmod.cls("Ftype")
     members = [norm(t) for st in ft.body if isinstance(st, ast.Assign) for t in st.targets]
@@ -495,6 +536,9 @@ def _grouping_injection(chk, repo):
     chk.ob("R4", vb, hit, "injected value = the table's grouping columns in order",
            "for uid in table._cache.partition_by" in body and "table._cache.cols[uid]" in body and "partition_by" in body,
            "the injected partition_by is not the list of the table's grouping columns")  # fmt: skip
+
+
+def _grouping_call_sites(chk, vb, pa):
     # summarize passes agg_is_window=False, every other verb uses the default True
     calls = [c for c in calls_in(vb.tree) if dotted(c.func) == "preprocess_arg"]
     bad = []
@@ -514,6 +558,31 @@ def _grouping_injection(chk, repo):
 
 
 def _over_wiring(chk, repo, m):
+    sql = repo.mod("backend.sql")
+    f = sql.func("SqlImpl.compile_col_expr")
+    # the ColFn branch of both dispatchers interpreted on window-function stubs (pipesim.over_scenarios for SQL; the Polars side is
+    # part of the R8 scenarios); the spelling of the over(..) calls is the fallback
+    from .. import pipesim as _ps
+    from ..interp import PyRaise as _PR5, SymbolicBranch as _SB5
+    from .c17 import m_types_env as _mte5
+
+    try:
+        res5 = _ps.over_scenarios(_ps.RealWorld(repo, _mte5(m)))
+        for desc, ok_, detail in res5:
+            chk.ob("R5", sql, f, f"sql window function interpreted: {desc}", ok_, detail)
+        over_decided = True
+    except (AnalysisError, _SB5, KeyError) as e:
+        chk.undecided.append(f"R5: SqlImpl.compile_col_expr could not be interpreted on window stubs ({str(e)[:140]})")
+        over_decided = False
+    except _PR5 as p_:
+        chk.ob("R5", sql, f, "SqlImpl.compile_col_expr on window stubs", False, f"setting up the scenario raises {p_.name}: {p_.msg}")
+        over_decided = True
+    if not over_decided:
+        _over_wiring_shape(chk, repo)
+    _shift_wiring(chk, m)
+
+
+def _over_wiring_shape(chk, repo):
     sql = repo.mod("backend.sql")
     f = sql.func("SqlImpl.compile_col_expr")
     overs = [c for c in calls_in(f) if (dotted(c.func) or "").endswith(".over")]
@@ -547,6 +616,9 @@ def _over_wiring(chk, repo, m):
             good = by is not None and norm(by) == "order_by" and d is not None and norm(d) == "descending" and nl is not None and "nulls_last" in norm(nl)
             chk.ob("R5", pol, c, f"polars sort_by(by=order_by, descending=descending, nulls_last=..): {norm(c)[:60]}", good,
                    "sort_by used for ordered window evaluation does not receive keys / descending / nulls_last in their slots")  # fmt: skip
+
+
+def _shift_wiring(chk, m):
     # shift: sign of the offset selects LAG / LEAD
     for r in m.regs:
         if r.opvar == "shift" and r.store == "SqlImpl":
